@@ -6,7 +6,7 @@ import numpy as np
 
 from . import artefact, cfggen, compile as vc, hostile, netgen, tflw
 
-FAMILIES_ALL = ["shared-weights", "stripe-resize", "tiny", "exact-chain", "exact-dag", "approx-tail", "stripe-stress", "buffer-stress", "lut-stress", "alias-stress", "cpu-mix", "exact-chain-big"]
+FAMILIES_ALL = ["shared-weights", "stripe-resize", "tiny", "mixed-width", "exact-chain", "exact-dag", "approx-tail", "stripe-stress", "buffer-stress", "lut-stress", "alias-stress", "cpu-mix", "exact-chain-big"]
 
 
 def make_net(family, nseed):
